@@ -148,11 +148,17 @@ func otherPassword(c *pbt.C, pw string) (other, how string) {
 		}
 	}
 	if len(pw) > 72 {
-		alts = append(alts,
-			alt{"truncate-72", func() string { return pw[:72] }},
-			alt{"truncate-64", func() string { return pw[:64] }},
-			alt{"truncate-1023", func() string { return pw[:len(pw)-1] }},
-		)
+		trunc := []alt{
+			{"truncate-72", func() string { return pw[:72] }},
+			{"truncate-64", func() string { return pw[:64] }},
+			{"truncate-1023", func() string { return pw[:len(pw)-1] }},
+			{"long-last-byte", func() string { return pw[:len(pw)-1] + string(pw[len(pw)-1]^1) }},
+		}
+		if c.Bool("other-long-tail") { // long passwords: prefer differences an implementation that truncates would miss
+			alts = trunc
+		} else {
+			alts = append(alts, trunc...)
+		}
 	}
 	names := make([]string, len(alts))
 	for i := range alts {
